@@ -74,6 +74,8 @@ def run(ctx):
     from . import c07 as _c07
     _reuse(ctx, _c07.run, ("C07.opts",), "C06tgt", "option rule shared with C07: a target-efficiency setter that leaves the ramp flag and the stored value inconsistent makes "
            "current_target_efficiency index a float (the run raises) or use a stale ramp")
+    _reuse(ctx, _c07.run, ("C07.eff", "C07.init"), "C06eff", "efficiency rule shared with C07: the bisection can only advance if the efficiency it compares with the target is ESS / (size of the population "
+           "it was computed on); divided by anything larger it stays below the target for every temperature and the schedule never moves")
     from . import c11 as _c11
     _reuse(ctx, _c11.run, ("C11.restore",), "C06res", "restore rule shared with C11: the step cap counts iterations, so a resumed run must continue from the checkpointed iteration and temperature",
            only=lambda f: "iteration" in f.key or "beta" in f.key)
@@ -430,6 +432,7 @@ def run(ctx):
 
 _B = "src/aspire/samplers/smc/base.py"
 MUTANTS = [
+    M("efficiency divided by the requested, not the actual, population size", "src/aspire/samplers/smc/base.py", ") / len(samples)\n            if eff_beta_max", ") / self.n_requested\n            if eff_beta_max", "C06eff"),
     M("fixed step not clamped", _B, "if beta >= 1.0 - 0.5 * beta_step:\n                beta = 1.0", "pass", "C06.clamp", within="SMCSampler.determine_beta"),
     M("fixed step snaps only at exactly 1.0", _B, "if beta >= 1.0 - 0.5 * beta_step:", "if beta >= 1.0:", "C06.fpexit", within="SMCSampler.determine_beta"),
     M("min_step rescaled even at beta*=1", _B, "if self.adaptive_min_step and beta_star < 1.0:", "if self.adaptive_min_step:", "C06.div0"),
